@@ -1,6 +1,7 @@
 package props
 
 import (
+	"bytes"
 	"context"
 	"encoding/json"
 	"fmt"
@@ -276,3 +277,93 @@ func TestC02Race(t *testing.T) {
 		return c
 	}, execC03Race)
 }
+
+// ---- C02 write fault: one transport write of a stream message fails while the connection stays healthy ----
+
+type C02Fault struct {
+	Kind  int  `json:"kind"`   // client or bidi
+	N     int  `json:"n"`      // messages the caller tries to send
+	FailJ int  `json:"fail_j"` // index of the message whose transport write fails
+	Ser   bool `json:"ser"`
+}
+
+func genC02Fault(t *rapid.T) C02Fault {
+	c := C02Fault{Kind: rapid.SampledFrom([]int{kit.KindClient, kit.KindBidi}).Draw(t, "kind"), N: rapid.IntRange(1, 8).Draw(t, "n"), Ser: rapid.Bool().Draw(t, "ser")}
+	c.FailJ = rapid.IntRange(0, c.N-1).Draw(t, "fail_j")
+	return c
+}
+
+func execC02Fault(t *testing.T, c C02Fault) (v Verdict) {
+	var got [][]byte
+	var sendErrs []error
+	var end *kit.ErrObs
+	res := kit.Bubble(t, func() {
+		svc := kit.NewSvc()
+		svc.Stream("s", true, true, func(s grpcServerStream) error {
+			for {
+				b, err := kit.RecvBytes(s)
+				if err != nil {
+					return nil
+				}
+				got = append(got, b)
+			}
+		})
+		w := kit.NewWorld(kit.Topo{Kind: "direct", Serialize: c.Ser, Clients: 1}, svc, nil, nil)
+		marker := []byte{0xFA, byte(c.FailJ), 0x17}
+		w.Links[0].A.FailWriteIf(func(r *kit.Rpc) bool { return bytes.Equal(unwrapBytes(r.GetBody().GetData()), marker) })
+		cs, err := w.Conn(0).NewStream(context.Background(), kit.StreamDescFor(c.Kind), kit.FullMethod("s"))
+		if err != nil {
+			v.failf("open: %v", err)
+			return
+		}
+		for i := 0; i < c.N; i++ {
+			msg := []byte{0xFA, byte(i), 0x17}
+			sendErrs = append(sendErrs, kit.SendBytes(cs, msg))
+			kit.Settle()
+		}
+		_ = cs.CloseSend()
+		done := make(chan struct{})
+		go func() {
+			defer close(done)
+			for {
+				if _, err := kit.RecvBytes(cs); err != nil {
+					e := kit.Observe(err)
+					end = &e
+					return
+				}
+			}
+		}()
+		kit.Settle()
+		w.Shutdown()
+		kit.Settle()
+	})
+	if res.Panic != nil {
+		v.failf("panic: %v", res.Panic)
+	}
+	// every message whose SendMsg reported success must have reached the handler, in order; the one whose
+	// transport write failed must not be reported as sent
+	var okSent [][]byte
+	for i, e := range sendErrs {
+		if e == nil {
+			okSent = append(okSent, []byte{0xFA, byte(i), 0x17})
+		}
+	}
+	if len(sendErrs) > c.FailJ && sendErrs[c.FailJ] == nil {
+		v.failf("the transport write of message #%d failed but SendMsg reported success", c.FailJ)
+	}
+	if !kit.BytesEq(got, okSent) {
+		v.failf("handler received %v, the caller's successful sends were %v", digests(got), digests(okSent))
+	}
+	if end != nil && end.EOF && len(got) < len(sendErrs) && v.Fail == "" {
+		// a clean end with messages missing is only acceptable if the caller was told that those sends failed
+		for i := len(got); i < len(sendErrs); i++ {
+			if sendErrs[i] == nil {
+				v.failf("stream ended in io.EOF although message #%d was reported sent and never arrived", i)
+			}
+		}
+	}
+	v.Info = kit.CaseInfo{Labels: []string{"writefault", "kind=" + kit.KindNames[c.Kind]}, NonTrivial: true, Key: fmt.Sprintf("%+v", c), Sample: c}
+	return
+}
+
+func TestC02Fault(t *testing.T) { checkProp(t, "C02", "writefault", genC02Fault, execC02Fault) }
